@@ -304,6 +304,8 @@ pub enum Step {
     Mnemonic(Kind, u16, u16),
     /// TYPEn / CLASSn with a case mask for the prefix
     Generic(Kind, u16, u16),
+    /// TYPE000n / CLASS000n: the number written with this many leading zeros
+    GenericPadded(Kind, u16, u16, u8),
 }
 
 #[derive(Clone, Debug, Serialize, Deserialize, PartialEq, Eq, Hash)]
@@ -347,6 +349,10 @@ pub fn oracle_history(h: &History, st: &mut Stats) -> Verdict {
                     let prefix = if matches!(kind, Kind::Type | Kind::Qtype) { "TYPE" } else { "CLASS" };
                     Case::Text { kind: *kind, text: format!("{}{v}", with_mask(prefix, *mask)), expect: *v }
                 }
+                Step::GenericPadded(kind, v, mask, zeros) => {
+                    let prefix = if matches!(kind, Kind::Type | Kind::Qtype) { "TYPE" } else { "CLASS" };
+                    Case::Text { kind: *kind, text: format!("{}{}{v}", with_mask(prefix, *mask), "0".repeat(*zeros as usize)), expect: *v }
+                }
             };
             if junk_before {
                 judged_after_junk = true;
@@ -387,6 +393,7 @@ fn history_strategy() -> impl proptest::strategy::Strategy<Value = History> {
         2 => (kind(), any::<u16>()).prop_map(|(k, v)| Step::RoundTrip(k, v)),
         3 => (kind(), any::<u16>(), prop_oneof![Just(0u16), any::<u16>()]).prop_map(|(k, s, m)| Step::Mnemonic(k, s, m)),
         2 => (kind(), any::<u16>(), prop_oneof![Just(0u16), any::<u16>()]).prop_map(|(k, v, m)| Step::Generic(k, v, m)),
+        1 => (kind(), prop_oneof![Just(0u16), Just(1u16), any::<u16>()], prop_oneof![Just(0u16), any::<u16>()], prop_oneof![1u8..6, 6u8..40]).prop_map(|(k, v, m, z)| Step::GenericPadded(k, v, m, z)),
     ];
     prop::collection::vec(step, 2..16).prop_map(|steps| History { steps })
 }
